@@ -220,9 +220,67 @@ def check_several_houses(ctx, case):
         ctx.check(True, "ok")
 
 
+def ready_flip_start_case(rng):
+    """a slave (stepped by fiats) or an inactive framer (stepped by bids) is readied, the share its first-frame condition
+    reads is written, and it is started: the start evaluates the condition as it is then -- whatever the ready found"""
+    via = rng.choice(["fiat", "fiat", "bid"])
+    c_ready, c_start = rng.choice([(1, 0), (1, 0), (0, 1), (1, 1), (0, 0)])
+    same_tick = rng.random() < 0.5
+    L = ["house h", "", "  init .c0 with %d" % c_ready, ""]
+    L += ["  framer boss be active first b0", "    frame b0"]
+    # (the fiat in the enter context: in its native before-enter context a failing `ready` would refuse the frame itself)
+    L += ["      enter", "      ready s0", "      native"] if via == "fiat" else ["      bid ready s0"]
+    if same_tick and via == "fiat":
+        L += ["      put %d into .c0" % c_start, "      start s0", "      go b3"]
+    else:
+        L += ["      go next", "    frame b1", "      put %d into .c0" % c_start, "      go next" if via == "fiat" else "      go next if recurred >= 1",
+              "    frame b2", "      start s0" if via == "fiat" else "      bid start s0", "      go next"]
+    L += ["    frame b3", "      go next if recurred >= 3", "    frame b4", "      bid stop all", ""]
+    L += ["  framer s0 be %s first x0" % ("slave" if via == "fiat" else "inactive"), "    frame x0", "      let me if .c0 == 1",
+          '      do vf rec with tag "s0.x0.enter" at enter', ""]
+    return {"text": "\n".join(L) + "\n", "via": via, "c_ready": c_ready, "c_start": c_start}
+
+
+def ready_flip_start_check(ctx, rng):
+    from vf.flo import runner
+    case = ready_flip_start_case(rng)
+    res = runner.run_text(case["text"], maxticks=30)
+    if not res.built:
+        ctx.inconclusive_case("ready / start program did not build: %s" % (res.build_msgs[-2:],))
+        return
+    ctx.case(case["text"], nontrivial=True)
+    if res.exc is not None:
+        ctx.fail("ready-then-start/run-raised/%s" % type(res.exc).__name__, "run raised %r" % (res.exc,), {"program": case["text"]})
+        return
+    sends = [s for s in res.sends if s["tasker"] == "s0"]
+    starts = [s for s in sends if s["control"] == "start"]
+    readies = [s for s in sends if s["control"] == "ready"]
+    ctx.event(len(sends))
+    if not starts or not readies:
+        ctx.inconclusive_case("the slave / inactive framer did not receive both controls: %s" % [(s["control"], s.get("status")) for s in sends])
+        return
+    ctx.hit("ready_then_start_cases")
+    entered = any(e["tag"] == "s0.x0.enter" for e in res.trace)
+    want = "started" if case["c_start"] == 1 else "stopped"
+    if case["c_ready"] == 1 and case["c_start"] == 0:
+        ctx.hit("starts_with_false_condition_after_successful_ready")
+    if case["c_ready"] == 0 and case["c_start"] == 1:
+        ctx.hit("starts_with_true_condition_after_failed_ready")
+    got_ready = readies[0].get("status")
+    ctx.check(got_ready == ("readied" if case["c_ready"] == 1 else "stopped"), "ready-then-start/ready-result",
+              "ready with the first-frame condition %s left the tasker %s" % (bool(case["c_ready"]), got_ready), lambda: {"program": case["text"]})
+    ctx.check(starts[0].get("status") == want and entered == (want == "started"),
+              "first-frame-condition-%s-but-%s" % ("false" if want == "stopped" else "true", "started" if want == "stopped" else "not-started"),
+              "start (by %s) after a ready that %s, first-frame condition now %s: status %s, first frame entered: %s" % (
+                  case["via"], "succeeded" if case["c_ready"] else "failed", bool(case["c_start"]), starts[0].get("status"), entered),
+              lambda: {"program": case["text"], "sends": [(s["tick"], s["control"], s.get("status")) for s in sends]})
+
+
 def worker(ctx, job):
     from vf.flo import runner, monitors
     install_fiat_contracts()
+    for seed in job.get("rfs", []):
+        ready_flip_start_check(ctx, random.Random(seed))
     for seed in job.get("houses", []):
         check_several_houses(ctx, several_houses_case(random.Random(seed)))
     for seed, fi in job["items"]:
@@ -379,7 +437,9 @@ def run(ctx):
     n = ctx.pick(400, 24000)
     items = [(ctx.rng.randrange(1 << 30), i % gen.nfeats(FEATS, ctx)) for i in range(n)]
     hs = [ctx.rng.randrange(1 << 30) for _ in range(ctx.pick(96, 3000))]
-    ctx.shard([{"items": items[i::16], "houses": hs[i::16]} for i in range(16)], timeout=ctx.pick(300, 1500))
+    rfs = [ctx.rng.randrange(1 << 30) for _ in range(ctx.pick(160, 4000))]
+    ctx.shard([{"items": items[i::16], "houses": hs[i::16], "rfs": rfs[i::16]} for i in range(16)], timeout=ctx.pick(300, 1500))
+    ctx.floor("ready_then_start_cases", ctx.pick(100, 2500))
     ctx.floor("clone_bid_controls_checked", 40)
     ctx.floor("clone_bids_in_an_earlier_house", 15)
     ctx.floor("several_houses_rear", 15)
@@ -390,7 +450,7 @@ def run(ctx):
     ctx.floor("two_bids_before_run", 10)
     ctx.floor("failed_starts", 5)
     ctx.floor("starts_with_false_first_frame_condition", 30)
-    ctx.floor("starts_with_false_condition_after_successful_ready", 2)
+    ctx.floor("starts_with_false_condition_after_successful_ready", 30)
     ctx.floor("starts_with_true_first_frame_condition", 100)
     ctx.floor("controls_checked", 2000)
     ctx.floor("bids_with_period", 20)
